@@ -23,7 +23,7 @@ SumM(s, m) == IF s = <<>> THEN 0 ELSE (Head(s) + SumM(Tail(s), m)) % m
 Range0(n) == [i \in 1..n |-> i - 1]
 
 \* bit j (0 = least significant) of x
-BitOf(x, j) == (x \div Pow2(j)) % 2
+BitOf(a, j) == (a \div Pow2(j)) % 2
 
 ---------------------------------------------------------------------------
 (* Slices (slices.rs, documented as NumPy basic slicing restricted to      *)
@@ -187,7 +187,7 @@ ConcatPlan(ats, ot, axis) ==
 
 Unsupported(why) == [p |-> "unsupported", why |-> why]
 
-Plan(rec, ats, ot) ==
+PlanRaw(rec, ats, ot) ==
   LET op == rec.op IN
   CASE op = "Zeros" -> [p |-> "const", v |-> ZeroOf(ot)]
     [] op = "Ones" -> [p |-> "const", v |-> OneOf(ot)]
@@ -254,6 +254,9 @@ Plan(rec, ats, ot) ==
     [] op = "InversePermutation" -> [p |-> "invperm", n |-> NumEl(ats[1])]
     [] OTHER -> Unsupported(op)
 
+\* plans are tables: force TLC to compute them eagerly (TLCEval), they are reused for every evaluation
+Plan(rec, ats, ot) == TLCEval(PlanRaw(rec, ats, ot))
+
 ---------------------------------------------------------------------------
 (* Execution *)
 
@@ -305,7 +308,7 @@ ExecApplyPerm(pl, x1, pm) ==
   ELSE LET eff == IF pl.inv THEN InvPermSeq(pm, pl.n) ELSE pm
        IN [o \in 1..(pl.n * pl.row) |-> x1[eff[((o - 1) \div pl.row) + 1] * pl.row + ((o - 1) % pl.row) + 1]]
 
-Exec(pl, args, ot) ==
+ExecRaw(pl, args, ot) ==
   LET k == pl.p IN
   CASE k = "const" -> pl.v
     [] k = "arg" -> args[pl.i]
@@ -327,6 +330,10 @@ Exec(pl, args, ot) ==
     [] k = "gatherdyn" -> ExecGatherDyn(pl, args[1], args[2])
     [] k = "applyperm" -> ExecApplyPerm(pl, args[1], args[2])
     [] k = "invperm" -> IF IsPermSeq(args[1], pl.n) THEN InvPermSeq(args[1], pl.n) ELSE "error"
+
+\* TLCEval (= identity) makes TLC compute the value now; without it TLC keeps function
+\* constructors as closures and re-evaluates whole dependency chains at every element access.
+Exec(pl, args, ot) == TLCEval(ExecRaw(pl, args, ot))
 
 OpEval(rec, ats, args, ot) == Exec(Plan(rec, ats, ot), args, ot)
 =============================================================================
